@@ -41,7 +41,8 @@ type c17Plan struct {
 	// clock anomaly: from FreezeAt virtual ms after start on, the log's clock (timeNowUnixMilli) stops advancing
 	// (FreezeBack = 0) or has stepped back by FreezeBack ms and stands still there
 	FreezeAt, FreezeBack int
-	Slow                 int // ms taken by the slow operation of the plan's simSlow directive (0: none)
+	Slow                 int  // ms taken by the slow operation of the plan's simSlow directive (0: none)
+	SlowIssuer           bool // some entries name an issuer the log has not seen, and one of those issuer uploads takes 1.5 s
 }
 
 func c17GenPlan(t *rapid.T) c17Plan {
@@ -83,6 +84,10 @@ func c17GenPlan(t *rapid.T) c17Plan {
 		p.Slow = rapid.SampledFrom([]int{1200, 2500, 2500, 5000, 9000}).Draw(t, "slowMs")
 		p.Faults = append(p.Faults, simFault{Class: rapid.SampledFrom([]string{"lock", "staging", "checkpoint", "tile"}).Draw(t, "slowClass"),
 			Ordinal: rapid.IntRange(0, 3).Draw(t, "slowOrd"), Mode: simSlow, Mask: uint64(p.Slow)})
+	}
+	if rapid.IntRange(0, 3).Draw(t, "slowIssuer") == 2 {
+		p.SlowIssuer = true
+		p.Faults = append(p.Faults, simFault{Class: "issuer", Ordinal: rapid.IntRange(0, 2).Draw(t, "slowIssuerOrd"), Mode: simSlow, Mask: 1500})
 	}
 	if rapid.IntRange(0, 4).Draw(t, "clockAnomaly") == 1 {
 		p.FreezeAt = 100 + 250*rapid.IntRange(1, 20).Draw(t, "freezeAt") + 60
@@ -258,7 +263,30 @@ func c17Run(t *testing.T, plan c17Plan, dir string, st map[string]int, desc *[]s
 			}
 		}
 		viaHTTPNext := false
+		freshIssuer := map[int]bool{} // entries naming an issuer the log has not seen (first submission uploads it)
 		submit := func(e *simEntry, low bool) {
+			var preF waitEntryFunc
+			var preSrc string
+			pre := false
+			if freshIssuer[e.ID] {
+				// The submission uploads an issuer first, which may take longer than a sequencing period: rounds (and a stop)
+				// can happen meanwhile. The admission decision is taken at the end of the call, so the expectation below is
+				// computed from the state right after it.
+				delete(freshIssuer, e.ID)
+				func() {
+					defer func() {
+						if r := recover(); r != nil {
+							fail("the server panicked while admitting entry %d: %v", e.ID, r)
+						}
+					}()
+					preF, preSrc = l.addLeafToPool(context.Background(), e.P, low)
+				}()
+				pre = true
+				st["submissions-with-a-new-issuer"]++
+				if stopped() && !stopSeen {
+					quiesce("after a submission that uploaded an issuer")
+				}
+			}
 			l.poolMu.Lock()
 			cur := l.currentPool
 			l.poolMu.Unlock()
@@ -349,6 +377,10 @@ func c17Run(t *testing.T, plan c17Plan, dir string, st map[string]int, desc *[]s
 							fail("the server panicked while admitting entry %d (low=%v, pool %d/%d): %v", e.ID, low, m.occ, plan.PoolSize, r)
 						}
 					}()
+					if pre {
+						f, src = preF, preSrc
+						return
+					}
 					f, src = l.addLeafToPool(simInlineCtx(context.Background()), e.P, low)
 				}()
 				if f == nil {
@@ -498,6 +530,10 @@ func c17Run(t *testing.T, plan c17Plan, dir string, st map[string]int, desc *[]s
 				submit(d, lowOf[d.ID])
 			default:
 				e := simMakeEntry(nextID, nextID%2)
+				if plan.SlowIssuer && nextID%3 == 2 {
+					e = simMakeEntry(nextID, nextID%2|16)
+					freshIssuer[e.ID] = true
+				}
 				if nextID%3 != 2 {
 					// a real certificate chaining to the accepted root: the same entry can also arrive through add-chain
 					der := simLeafCert(5000 + nextID)
@@ -650,7 +686,7 @@ func TestVerifC17Admission(t *testing.T) {
 		}
 		nt := st["evictions"] > 0 || (st["stops"] > 0 && st["pending-failed-at-stop"] > 0)
 		var cls []string
-		for _, k := range []string{"evictions", "rejections", "pool-filled", "stops", "cancels", "read-only-stops", "sunset-errors", "pending-failed-at-stop", "submissions-after-stop", "resubmissions-of-acknowledged-after-stop", "duplicates-over-http", "duplicates-of-entries-being-sequenced"} {
+		for _, k := range []string{"evictions", "rejections", "pool-filled", "stops", "cancels", "read-only-stops", "sunset-errors", "pending-failed-at-stop", "submissions-after-stop", "resubmissions-of-acknowledged-after-stop", "duplicates-over-http", "duplicates-of-entries-being-sequenced", "submissions-with-a-new-issuer"} {
 			if st[k] > 0 {
 				cls = append(cls, k)
 			}
